@@ -6,4 +6,6 @@ CONSTANTS
   MinExp <- MinExpV
   MaxExp <- MaxExpV
   MaxPrec = 2147483647
+  WS = 8
+  DWg = 19
 CHECK_DEADLOCK FALSE
